@@ -9,6 +9,7 @@ use rustc_span::Span;
 use tracing::debug;
 
 use crate::closures;
+use crate::comment::ends_inside_line_comment;
 use crate::config::StyleEdition;
 use crate::config::{Config, lists::*};
 use crate::expr::{
@@ -708,6 +709,10 @@ impl<'a> Context<'a> {
         };
         if force_single_line {
             result.push_str(items_str);
+            if ends_inside_line_comment(items_str) {
+                // The closing delimiter must not become part of the comment.
+                result.push_str(&indent_str);
+            }
         } else {
             if !items_str.is_empty() {
                 result.push_str(&nested_indent_str);
